@@ -961,9 +961,15 @@ func (e *Engine) ret(st *State, fr *Frame, v Val) bool {
 	st.frames = st.frames[:len(st.frames)-1]
 	if fr.onReturn != nil {
 		fr.onReturn(e, st, v)
+		if len(st.frames) == 0 && st.par != nil {
+			return e.parThreadEnd(st)
+		}
 		return len(st.frames) == 0
 	}
 	if len(st.frames) == 0 {
+		if st.par != nil {
+			return e.parThreadEnd(st)
+		}
 		st.result = v
 		return true
 	}
@@ -1362,13 +1368,16 @@ func (e *Engine) exec(st *State, fr *Frame, in ssa.Instruction) bool {
 	case *ssa.RunDefers:
 		if n := len(fr.defers); n > 0 {
 			d := fr.defers[n-1]
-			fr.defers = fr.defers[:n-1]
 			name := d.fn.fn.String()
 			if h, ok := e.intercept[name]; ok {
+				// the deferred call is popped only after the model ran: a model
+				// that forks re-executes this instruction in the forked state
 				e.models[name]++
 				h(e, st, fr, nil, d.args)
+				fr.defers = fr.defers[:n-1]
 				return false // re-run RunDefers
 			}
+			fr.defers = fr.defers[:n-1]
 			target := d.fn.fn
 			if rf, ok := e.redirect[name]; ok {
 				e.models[name+" (Go-source model)"]++
@@ -1822,6 +1831,10 @@ func (e *Engine) callFn(st *State, fr *Frame, in *ssa.Call, callee *ssa.Function
 		}
 		fr.env[in] = v
 		fr.idx++
+		return false
+	}
+	if short := callee.Name(); short == "vfPar" && callee.Signature.Recv() == nil {
+		e.parStart(st, fr, args)
 		return false
 	}
 	if short := callee.Name(); strings.HasPrefix(short, "vf") && callee.Signature.Recv() == nil {
